@@ -465,6 +465,31 @@ identical result for every segmentation. non-trivial = >=2 fields and one of {du
             let status = resp.status().as_u16();
             let obs = observed(resp.headers());
             let len = resp.headers().len();
+            // the status helpers agree with the status
+            if resp.is_success() != (200..300).contains(&status) {
+                return Outcome::fail("C04:is_success", format!("is_success() = {} for status {status}", resp.is_success()));
+            }
+            if si == 0 {
+                // error_for_status: the response itself for a 2xx status, an error carrying the status code for any other
+                let events2 = {
+                    let mut e = seg.split(&wire, &structural);
+                    e.push(Ev::Eof);
+                    e
+                };
+                let (res2, _n2, _g2) = get_scripted(events2, |rb| rb.max_headers(limit).follow_redirects(!followed));
+                if let Ok(r2) = res2 {
+                    match r2.error_for_status() {
+                        Ok(r) if (200..300).contains(&status) && r.status().as_u16() == status => {}
+                        Err(e) if !(200..300).contains(&status) && matches!(e.kind(), attohttpc::ErrorKind::StatusCode(c) if c.as_u16() == status) => {}
+                        other => {
+                            return Outcome::fail(
+                                "C04:error_for_status",
+                                format!("error_for_status() on a {status} response returned {:?}", other.map(|r| format!("Ok({})", r.status())).map_err(|e| format!("{e:?}"))),
+                            )
+                        }
+                    }
+                }
+            }
             let (s2, h2, _r) = resp.split();
             if s2.as_u16() != status || observed(&h2) != obs {
                 return Outcome::fail("C04:split-differs", "Response::split() reports a different status or header map".to_string());
